@@ -156,9 +156,11 @@ def main():
     for mname, mesh in pool:
         grid = M.to_grid(mesh)
         topo = S.Topo(mesh.V, mesh.E)
-        for fam, op, trial_kinds, test_kinds, k in op_configs(ctx.quick or bool(ctx.worker)):
+        for cfgi, (fam, op, trial_kinds, test_kinds, k) in enumerate(op_configs(ctx.quick)):
+            if ctx.worker and cfgi % 3 != 0:
+                continue
             for ci in range(ncase):
-                cid = "congr:%s:%s.%s:%d" % (mname, fam, op, ci)
+                cid = "congr:%s:%d.%s.%s:%d" % (mname, cfgi, fam, op, ci)
                 if not ctx.want(cid):
                     continue
                 rng = ctx.rng(mname, fam, op, ci)
@@ -251,8 +253,16 @@ def main():
                     with ctx.guard(cid, "nesting:%s" % how):
                         inc = dict(include_boundary_dofs=True) if kind == "P1" else {}
                         cs = api.function_space(cg, *KIND_ARGS[kind], **inc)
-                        fs = api.function_space(fg, *KIND_ARGS[kind], **inc)
-                        P = prolongation_p1(cs, fs) if kind == "P1" else prolongation_dp0(cs, fs)
+                        # prolongation level by level (a fine vertex is a vertex / edge midpoint / centroid of the grid one level up)
+                        P = None
+                        g_lo, s_lo = cg, cs
+                        for _lv in range(lev):
+                            g_hi = g_lo.refine() if how == "refine" else g_lo.barycentric_refinement
+                            s_hi = api.function_space(g_hi, *KIND_ARGS[kind], **inc)
+                            P_lv = prolongation_p1(s_lo, s_hi) if kind == "P1" else prolongation_dp0(s_lo, s_hi)
+                            P = P_lv if P is None else P_lv @ P
+                            g_lo, s_lo = g_hi, s_hi
+                        fg, fs = g_lo, s_lo
                         devs = []
                         for o in ladder:
                             par = O.params(api, *o)
